@@ -59,8 +59,13 @@ Inductive opclass :=
 | OpScClose.        (* SC StatusReport(CloseSession) *)
 
 Record msg := mkMsg {
-  m_key : N; m_enc : bool; m_ctr : N; m_exid : N; m_init : bool;
+  m_key : N; m_enc : bool; m_group : bool;   (* [m_group]: the group flag of the plain header *)
+  m_ctr : N; m_exid : N; m_init : bool;
   m_op : opclass; m_rel : bool; m_ack : option N }.
+
+(** what is left of a received group data message: R and A flags are not honoured *)
+Definition strip_mrp (m : msg) : msg :=
+  mkMsg (m_key m) (m_enc m) (m_group m) (m_ctr m) (m_exid m) (m_init m) (m_op m) false None.
 
 Definition is_standalone_ack (o : opclass) : bool :=
   match o with OpStandaloneAck => true | _ => false end.
@@ -68,6 +73,8 @@ Definition is_sc_status (o : opclass) : bool :=
   match o with OpScStatus | OpScClose => true | _ => false end.
 Definition is_new_session (o : opclass) : bool :=
   match o with OpNewSession => true | _ => false end.
+Definition is_close (o : opclass) : bool :=
+  match o with OpScClose => true | _ => false end.
 (** [MessageMeta::is_new_exchange] *)
 Definition is_new_exchange (o : opclass) : bool :=
   negb (is_standalone_ack o) && negb (is_sc_status o).
@@ -78,16 +85,17 @@ Record session := mkSess {
   s_id : N;            (* unique id (ExchangeId carries it) *)
   s_key : N;           (* what is_for_rx matches *)
   s_enc : bool;
+  s_group : bool;      (* ephemeral RX group session (SessionMode::Group, unicast peer) *)
   s_expired : bool;
   s_win : rx;          (* receive window (C04) *)
   s_exchs : list (option exch) }.
 
 Definition set_win (s : session) (w : rx) : session :=
-  mkSess (s_id s) (s_key s) (s_enc s) (s_expired s) w (s_exchs s).
+  mkSess (s_id s) (s_key s) (s_enc s) (s_group s) (s_expired s) w (s_exchs s).
 Definition set_exchs (s : session) (l : list (option exch)) : session :=
-  mkSess (s_id s) (s_key s) (s_enc s) (s_expired s) (s_win s) l.
+  mkSess (s_id s) (s_key s) (s_enc s) (s_group s) (s_expired s) (s_win s) l.
 Definition set_expired (s : session) : session :=
-  mkSess (s_id s) (s_key s) (s_enc s) true (s_win s) (s_exchs s).
+  mkSess (s_id s) (s_key s) (s_enc s) (s_group s) true (s_win s) (s_exchs s).
 
 (** ** list helpers *)
 
@@ -240,7 +248,7 @@ Inductive label :=
 | LSweepAccept                          (* handle_accept_timeout_rx_packet fires *)
 | LSweepOrphan                          (* handle_orphaned_rx_packet fires *)
 | LCloseDropped                         (* handle_dropped_exchange closes one exchange *)
-| LAddSession (key : N) (enc : bool)    (* a session gets established *)
+| LAddSession (key : N) (enc grp : bool)   (* a session gets established *)
 | LRemoveSession (sid : N)              (* eviction / close / fabric removal *)
 | LExpireSession (sid : N)
 | LTick (d : N).
@@ -272,19 +280,34 @@ Definition owner_of (ss : list session) (m : msg) : option (session * nat * exch
 
 (** ** process_rx / decode_packet / handle_rx_packet *)
 
-Definition new_session (sid key : N) (enc : bool) : session :=
-  mkSess sid key enc false rx_unsynced [].
+Definition new_session (sid key : N) (enc grp : bool) : session :=
+  mkSess sid key enc grp false rx_unsynced [].
+
+(** an ephemeral RX group session goes with its last exchange
+    ([Exchange::drop], [handle_dropped_exchange]) *)
+Definition group_gc (ss : list session) (sid : N) : list session :=
+  match find_sid ss sid with
+  | Some se => if s_group se && forallb is_none (s_exchs se) then remove_sid ss sid else ss
+  | None => ss
+  end.
 
 Definition do_rx (s : sys) (m : msg) : sys * list event :=
   (* decode_packet: session lookup (or creation), then Session::post_recv *)
   let '(ss1, nsid, dec) :=
     match find_key (sessions s) (m_key m) with
     | Some se =>
-        let '(se', r) := session_post_recv se m (now s) in
+        (* group data messages never use MRP (decode_remaining strips R and A) *)
+        let m1 := if s_group se then strip_mrp m else m in
+        let '(se', r) := session_post_recv se m1 (now s) in
         (upd_sid (sessions s) (s_id se) (fun _ => se'), next_sid s, Some (s_id se, r))
     | None =>
         if negb (m_enc m) && is_new_session (m_op m) then
-          let '(se', r) := session_post_recv (new_session (next_sid s) (m_key m) false) m (now s) in
+          let '(se', r) := session_post_recv (new_session (next_sid s) (m_key m) false false) m (now s) in
+          (sessions s ++ [se'], next_sid s + 1, Some (next_sid s, r))
+        else if m_enc m && m_group m then
+          (* get_or_create_for_group_rx: one ephemeral session per authenticated group message
+             (key lookup, authentication and the group counter store are C03 / C04) *)
+          let '(se', r) := session_post_recv (new_session (next_sid s) (m_key m) true true) (strip_mrp m) (now s) in
           (sessions s ++ [se'], next_sid s + 1, Some (next_sid s, r))
         else (sessions s, next_sid s, None)
     end in
@@ -301,10 +324,13 @@ Definition do_rx (s : sys) (m : msg) : sys * list event :=
                end
       | Err c =>
           if c =? ERR_DUPLICATE then
-            (mk ss1 RxEmpty, if is_standalone_ack (m_op m) then [] else [EvDupAck (m_key m) (m_ctr m)])
+            (mk ss1 RxEmpty, if m_group m || is_standalone_ack (m_op m) then [] else [EvDupAck (m_key m) (m_ctr m)])
           else if c =? ERR_NO_SPACE_EXCHANGES then
             (mk (remove_sid ss1 sid) RxEmpty, [EvNoSpaceClose sid])
           else if c =? ERR_NO_SESSION then (mk ss1 RxEmpty, [EvSessionNotFound m])
+          else if (c =? ERR_NO_EXCHANGE) && is_close (m_op m) then
+            (* a peer's CloseSession comes on an exchange of its own *)
+            (mk (remove_sid ss1 sid) RxEmpty, [EvPeerClosed sid])
           else (mk ss1 RxEmpty, [])     (* NoExchange and anything else: dropped *)
       | Panic _ => (mk ss1 RxEmpty, [])
       end
@@ -327,6 +353,9 @@ Fixpoint find_dropped (p : exch -> bool) (ss : list session) : option (N * nat *
       | None => find_dropped p t
       end
   end.
+
+Definition is_group_sid (ss : list session) (sid : N) : bool :=
+  match find_sid ss sid with Some se => s_group se | None => false end.
 
 Definition pick_dropped (ss : list session) : option (N * nat * exch) :=
   match find_dropped retrans_pending ss with
@@ -402,7 +431,8 @@ Definition step (bug : bool) (s : sys) (l : label) : option (sys * list event) :
           match find_sid (sessions s) sid with
           | Some se =>
               match nth_error (s_exchs se) idx with
-              | Some (Some e) => upd_sid (sessions s) sid (fun x => set_exchs x (remove_exch (s_exchs x) idx e))
+              | Some (Some e) =>
+                  group_gc (upd_sid (sessions s) sid (fun x => set_exchs x (remove_exch (s_exchs x) idx e))) sid
               | _ => sessions s
               end
           | None => sessions s
@@ -411,10 +441,13 @@ Definition step (bug : bool) (s : sys) (l : label) : option (sys * list event) :
       else None
   | LSend sid idx ctr rel =>
       if has_handle s sid idx then
+        (* Exchange::init_send lets go of the RxMessage first, whatever happens next *)
+        let released := mkSys (sessions s) (release_rx (rx s) sid idx) (handles s) (now s) (next_sid s) in
         match find_sid (sessions s) sid with
         | Some se =>
             match nth_error (s_exchs se) idx with
             | Some (Some e) =>
+                if s_group se then Some (released, []) else   (* no group data counter reserved: InvalidState *)
                 match rm_pre_send (e_mrp e) ctr rel None with
                 | (_, Panic _) => None
                 | (r', rr) =>
@@ -423,9 +456,9 @@ Definition step (bug : bool) (s : sys) (l : label) : option (sys * list event) :
                     let ss2 := if gave_up rr && s_enc se then upd_sid ss1 sid set_expired else ss1 in
                     Some (mkSys ss2 (release_rx (rx s) sid idx) (handles s) (now s) (next_sid s), [])
                 end
-            | _ => None
+            | _ => Some (released, [])
             end
-        | None => None
+        | None => Some (released, [])     (* NoSession *)
         end
       else None
   | LInitiate sid exid =>
@@ -474,15 +507,17 @@ Definition step (bug : bool) (s : sys) (l : label) : option (sys * list event) :
             Some (mkSys (remove_sid (sessions s) sid) (rx s) (handles s) (now s) (next_sid s),
                   [EvCloseSession sid i])
           else
-            Some (mkSys (set_slot (sessions s) sid i None) (rx s) (handles s) (now s) (next_sid s),
+            Some (mkSys (group_gc (set_slot (sessions s) sid i None) sid) (rx s) (handles s) (now s) (next_sid s),
+                  if is_group_sid (sessions s) sid then []   (* the acknowledgement cannot be built: closed anyway *)
+                  else
                   match rm_ack (e_mrp e) with
                   | Some a => if a_acked a then [] else [EvStandaloneAck sid i (a_ctr a)]
                   | None => []
                   end)
       | None => None
       end
-  | LAddSession key enc =>
-      Some (mkSys (sessions s ++ [new_session (next_sid s) key enc]) (rx s) (handles s) (now s)
+  | LAddSession key enc grp =>
+      Some (mkSys (sessions s ++ [new_session (next_sid s) key enc grp]) (rx s) (handles s) (now s)
                   (next_sid s + 1), [])
   | LRemoveSession sid =>
       match find_sid (sessions s) sid with
